@@ -10,6 +10,7 @@ import CookModel.Lemmas.FragInput
 import CookModel.Lemmas.RecipeText
 import CookModel.Lemmas.RecipeKeepComp
 import CookModel.Lemmas.RecipeSoft
+import CookModel.Lemmas.RecipeInline
 /-
   C05  No recipe content is silently dropped.
 
@@ -855,5 +856,113 @@ theorem C05_soft_fragment_is_line_break_partial (cs : CharSpec) (o : Nat) (s : L
 /-! non-vacuity: the tokens of `a⏎b` give the fragments `a`, the soft line break, `b` -/
 example : (buildText 0 (lexFrom toyCharSpec 0 "a\r\nb".toList)).frags.map (fun f => (f.text, f.soft)) =
     [(['a'], false), (['\r', '\n'], true), (['b'], false)] := by decide +kernel
+
+-- ===== w7c05inline =====
+/-! ## through the analysis (wave 7): the INLINE_QUANTITIES extension
+
+    With the extension on, `in_step_text` cuts a step text at the inline quantities `find_inline_quantity`
+    finds (src/analysis/event_consumer.rs:1341-1424): the text before a hit becomes a `Text` item, the hit an
+    `InlineQuantity(k)` item and entry `k` of `inline_quantities`, the scan goes on behind the hit.  What the
+    theorems below say: nothing of the step text is lost on the way except what the quantity does not store —
+    the white space between number and unit, the spelling of the number, the `-` sign (folded into the
+    value).  `InlineSrc env src q`: `src` = optional `-`, number text, white space, unit text; `q` = the
+    number read from the trimmed number text (negated after `-`) with the trimmed unit text, a unit the
+    converter knows.  `ItemsRender env R items txt`: `txt` is the concatenation, in order, of the text items
+    (verbatim) and of one source text per `InlineQuantity(k)` item, of a quantity `q` with `R k q`.
+    Side condition `DigitsNotWs` (an ASCII digit is not `char::is_whitespace`; proved for the real table,
+    `C03_digitsNotWs_real`): it makes the fuel of the model's loops sufficient. -/
+
+/-- **Decomposition invariant of `find_inline_quantity`.**  When the scan of `rest` (with `pre` already
+    behind it, reversed) returns a hit, the whole text `pre.reverse ++ rest` is exactly `hit.before`, a source
+    text of `hit.q`, `hit.after` — every candidate that failed on the way (not a number, unknown unit) was
+    put back whole.  Any fuel, any character table. -/
+theorem C05_inline_hit_decomposes {α : Type} [Arith α] (env : Env) (fuel : Nat) (pre rest : Str)
+    (hit : InlineHit α) (h : findInlineQuantity env fuel pre rest = some hit) :
+    ∃ src, pre.reverse ++ rest = hit.before ++ src ++ hit.after ∧ InlineSrc env src hit.q :=
+  ri_find env fuel pre rest hit h
+
+/-- **The splitting loop loses nothing.**  `inlineLoop` (the `while let` of `in_step_text`) run on the text
+    `hay` with enough fuel appends items `extra` to the step and quantities `more` to the table such that
+    `extra` renders back to `hay`: text items verbatim and in order, an `InlineQuantity(k)` item as a source
+    text of entry `k` of the new table. -/
+theorem C05_inline_loop_renders {α : Type} [Arith α] (env : Env) (hd : DigitsNotWs env.cs) (fuel : Nat)
+    (hay : Str) (items : List Item) (iq : Array (Quantity (Value α))) (hf : hay.length < fuel) :
+    ∃ extra more, (inlineLoop env fuel hay items iq).1 = items ++ extra ∧
+      (inlineLoop env fuel hay items iq).2.toList = iq.toList ++ more ∧
+      ItemsRender env (fun k q => (iq.toList ++ more)[k]? = some q) extra hay :=
+  ri_loop env hd fuel hay items iq hf
+
+/-- **The text of every `Text` event reaches the recipe, INLINE_QUANTITIES on or off.**  Let `parse` return
+    a recipe `c` and let the event stream be `pre ++ [Text t] ++ post`; the define mode at the moment the
+    event is analysed is not `components` (then: `C05_components_mode_text_warns`) and the text is not
+    empty.  Then some section of `c` has a content item that holds `t.text`: a text block whose text
+    contains `t.text` as a contiguous piece, or a step with a contiguous run of items that renders back to
+    `t.text` — text items verbatim, `InlineQuantity(k)` items as a source text of `c.inlineQ[k]`.  With the
+    extension off the run is the one item `Text(t.text)`.  Supersedes `C05_recipe_keeps_text_partial` (its
+    hypothesis `INLINE_QUANTITIES off` is gone). -/
+theorem C05_recipe_keeps_text {α : Type} [Arith α] (env : Env) (input : Str) (hd : DigitsNotWs env.cs)
+    (c : Col α) (hout : (parseRecipe (α := α) env input).output = some c) (pre post : List (Ev α)) (t : Text)
+    (hsplit : (pullEvents (α := α) env.cs env.ext input).1.toList = pre ++ Ev.text t :: post)
+    (hm : (collectorAfter env input pre ({} : Col α)).defineMode ≠ .components) (hne : t.text ≠ []) :
+    ∃ sec ∈ c.sections, ∃ ct ∈ sec.content,
+      ContentHasP (fun e => ItemsRender env (fun k q => c.inlineQ[k]? = some q) e t.text) t.text ct :=
+  ri_parse_text env input hd c hout pre post t hsplit hm hne
+
+/-- **Letters and digits of step text and text blocks appear in the recipe, INLINE_QUANTITIES on or off
+    (partial).**  As `C05_recipe_keeps_content_partial` without the hypothesis `INLINE_QUANTITIES off`: a
+    character `ch` of the input whose bytes lie inside a fragment `f` — not a soft line break — of the text
+    of a `Text` event occurs in a `Text` item of a step of `c`, in a source text of an inline quantity a step
+    of `c` refers to, or in a text block of `c` (`RecipeHasCharQ`).
+    Partial: the hypothesis `f.soft = false` is still there (the soft-line-break invariant is proved for
+    `buildText` only, `C05_soft_fragment_is_line_break_partial`, not lifted to the event stream). -/
+theorem C05_recipe_keeps_content_inline_partial {α : Type} [Arith α] (env : Env) (input a z : List Char)
+    (ch : Char) (hin : input = a ++ ch :: z) (hd : DigitsNotWs env.cs) (c : Col α)
+    (hout : (parseRecipe (α := α) env input).output = some c) (pre post : List (Ev α)) (t : Text)
+    (hsplit : (pullEvents (α := α) env.cs env.ext input).1.toList = pre ++ Ev.text t :: post)
+    (hm : (collectorAfter env input pre ({} : Col α)).defineMode ≠ .components)
+    (f : Frag) (hf : f ∈ t.frags) (hsoft : f.soft = false) (h1 : f.offset ≤ utf8Len a)
+    (h2 : utf8Len a + ch.utf8Size ≤ f.stop) : RecipeHasCharQ env c ch := by
+  have hmem : Ev.text t ∈ (pullEvents (α := α) env.cs env.ext input).1.toList := by rw [hsplit]; simp
+  have hs := rt_pullEvents_text_slices (α := α) env.cs env.ext input t hmem f hf
+  have hc := rt_char_in_text hf hsoft (rt_char_in_frag hin hs h1 h2)
+  have hne : t.text ≠ [] := List.ne_nil_of_mem hc
+  exact ri_hasChar (ri_parse_text env input hd c hout pre post t hsplit hm hne) hc
+
+/-! non-vacuity: `Add -5 g salt, 2x` with the toy table, INLINE_QUANTITIES on, the one unit `g`.  The second
+    event is the `Text` of the whole line; the scan hits `-5 g` (and puts the failed candidate `2x` back); the
+    recipe has the step `Add ` / inline quantity 0 / ` salt, 2x` and the quantity `-5 g`. -/
+example : riToyEnv.ext.has Gen.EXT_INLINE_QUANTITIES = true := by decide
+example : DigitsNotWs riToyEnv.cs := by
+  intro c h
+  simp only [isAsciiDigitC, Bool.and_eq_true, decide_eq_true_eq] at h
+  have h1 : 48 ≤ c.val := h.1
+  have h2 : c.val ≤ 57 := h.2
+  show toyCharSpec.uws c = false
+  simp only [toyCharSpec, Char.isWhitespace, Bool.or_eq_false_iff, decide_eq_false_iff_not]
+  refine ⟨⟨⟨?_, ?_⟩, ?_⟩, ?_⟩ <;> intro e <;> subst e <;> revert h1 h2 <;> decide
+example : (findInlineQuantity (α := Rat) riToyEnv 20 [] "Add -5 g salt, 2x".toList).map
+      (fun h => (h.before, h.q, h.after)) =
+    some ("Add ".toList, ⟨.number (.regular (-5)), some "g".toList⟩, " salt, 2x".toList) := by decide +kernel
+example : (match (pullEvents (α := Rat) riToyEnv.cs riToyEnv.ext "Add -5 g salt, 2x".toList).1.toList[1]? with
+    | some (Ev.text t) => t.text == "Add -5 g salt, 2x".toList
+    | _ => false) = true := by decide +kernel
+example : (collectorAfter riToyEnv "Add -5 g salt, 2x".toList
+    ((pullEvents (α := Rat) riToyEnv.cs riToyEnv.ext "Add -5 g salt, 2x".toList).1.toList.take 1)
+    ({} : Col Rat)).defineMode = .all := by decide +kernel
+example : ((parseRecipe (α := Rat) riToyEnv "Add -5 g salt, 2x".toList).output.map
+      (fun c => (c.sections, c.inlineQ))) =
+    some ([⟨none, [.step ⟨[.text "Add ".toList, .inlineQuantity 0, .text " salt, 2x".toList], 1⟩]⟩],
+      #[⟨.number (.regular (-5)), some "g".toList⟩]) := by decide +kernel
+/-- the source `-5 g` of the stored quantity: sign, number `5`, one space, unit `g` -/
+example : InlineSrc (α := Rat) riToyEnv "-5 g".toList ⟨.number (.regular (-5)), some "g".toList⟩ :=
+  ⟨true, "5".toList, " ".toList, "g".toList, 5, by decide, by decide, by decide +kernel, by decide,
+    by decide +kernel⟩
+example : ItemsRender (α := Rat) riToyEnv
+    (fun k q => (#[(⟨.number (.regular (-5)), some "g".toList⟩ : Quantity (Value Rat))])[k]? = some q)
+    [.text "Add ".toList, .inlineQuantity 0, .text " salt, 2x".toList] "Add -5 g salt, 2x".toList :=
+  ⟨"-5 g salt, 2x".toList, by decide, "-5 g".toList, " salt, 2x".toList, _, by decide, rfl,
+    ⟨true, "5".toList, " ".toList, "g".toList, 5, by decide, by decide, by decide +kernel, by decide,
+      by decide +kernel⟩,
+    [], by decide, rfl⟩
 
 end Cook
